@@ -108,6 +108,20 @@ Definition wf_instr (nq : nat) (i : instr) : bool :=
   forallb (fun q => Nat.ltb q nq) (iqs i) && (negb (is_marker i) || Nat.eqb (length (iqs i)) 1).
 Definition wf_circ (nq : nat) (c : circ) : bool := forallb (wf_instr nq) c.
 
+(* "each inserted Move executed as an ordinary reset-and-swap": the operation at every marker position of the
+   result [out] (whatever the factory produced there, e.g. the Qpd2 placeholder of cut_wires) is executed as a
+   plain Move on the same qubits; everything else is executed as it stands.  Positional, so a pre-placed
+   placeholder of the input is NOT touched. *)
+Fixpoint exec_inserted_as_moves (c out : circ) : circ :=
+  match c, out with
+  | i :: r, o :: ro => (if is_marker i then mkI Move (iqs o) (ics o) else o) :: exec_inserted_as_moves r ro
+  | _, _ => []
+  end.
+
+(* the same by operation: replace every occurrence of the factory op *)
+Definition unwrap (fac : op) (i : instr) : instr :=
+  if op_beq (iop i) fac then mkI Move (iqs i) (ics i) else i.
+
 (* positional selection *)
 Fixpoint select {A} (mask : list bool) (l : list A) : list A :=
   match mask, l with
